@@ -27,6 +27,18 @@ CLAIMS = {
              "natively, bounded); debug_log's one-way override not specified.",
         technique="VC generation from the Python AST (pyvc) + z3/cvc5; option table read from the AST",
         design="3/C19"),
+    "C16": dict(
+        text="_send: the emitted frame starts with Content-Length equal to the UTF-8 byte length of the JSON text, "
+             "one blank line, then the body (for every payload); _receive: for every grammatical frame (any number "
+             "of header fields before and after Content-Length, any body bytes) returns the decoded message and "
+             "consumes exactly that frame, EOFError on end of stream, loop variant; _read_header_content_length on "
+             "both kinds of header line. ReadWriter/main shapes are structural obligations; URI round trip and "
+             "library facts are bounded lemmas.",
+        note="Byte streams modelled as strings of bytes with readline at line level (BufferedReader semantics "
+             "trusted); json.dumps ASCII-only unless ensure_ascii=False; split/strip/int facts on the "
+             "Content-Length line validated natively; URI round trip bounded (names <= 3 chars over 13 characters).",
+        technique="VC generation from the Python AST (pyvc) + z3/cvc5; ghost stream state; loop invariant + variant",
+        design="3/C16"),
 }
 
 NOT_APPLICABLE = {
